@@ -108,6 +108,8 @@ def describe_steps(steps):
             out.append('PLAY(%s)' % st[1])
         elif k == 'raise':
             out.append('RAISE(%s)' % st[1].__name__)
+        elif k == 'sleep':
+            out.append('SLEEP(%s)' % st[1])
         else:
             out.append(k.upper())
     return ' '.join(out)
@@ -449,6 +451,7 @@ class Service(object):
         self.checks = []         # per-call observations for the transparency oracle
         self.threads = []        # (name, thread object, obs list)
         self.extractor_calls = 0
+        self.slept = 0.0
         self.last_result = None
         self.last_raised = None
         self.Dep = self._build_dep()
@@ -586,8 +589,13 @@ class Service(object):
 CallCheck = namedtuple('CallCheck', 'kind alias thread bodies identical_return identical_raise args_identical note')
 
 
+class EarlyReturn(Exception):
+    pass
+
+
 class Interp(object):
     """Interprets an operation body against the service classes."""
+    clock = None
 
     def __init__(self, svc):
         self.svc = svc
@@ -599,6 +607,8 @@ class Interp(object):
         obs = []
         try:
             self.run_steps(svc.spec.body, obs, 'main')
+        except EarlyReturn:
+            pass
         except BaseException as ex:
             svc.last_raised = ex
             raise
@@ -645,7 +655,11 @@ class Interp(object):
                 env.run.fault('interrupt')
                 raise D.Interrupt()
             elif k == 'return':
-                return
+                raise EarlyReturn()
+            elif k == 'sleep':
+                if self.clock is not None:
+                    self.clock.advance(st[1])
+                svc.slept += st[1]
             elif k == 'spawn':
                 self.do_spawn(st, obs, tname)
 
@@ -738,7 +752,10 @@ class Interp(object):
         svc.checks.append(CallCheck('out', ospec.alias, tname, call.get('bodies', 0),
                                     call.get('returned_set', False) and ret is call.get('returned'), None,
                                     call.get('args_identical'), None))
-        obs.append(['out', ospec.alias, 'value', ret if V.FLAVOUR['sharing'] else copy.deepcopy(ret)])
+        if isinstance(ret, (D.Unserializable, D.CopyFails)):
+            obs.append(['out', ospec.alias, 'opaque', type(ret).__name__])
+        else:
+            obs.append(['out', ospec.alias, 'value', ret if V.FLAVOUR['sharing'] else copy.deepcopy(ret)])
 
 
 # ---------------------------------------------------------------------------------------------- thread factories
@@ -870,8 +887,12 @@ class Recorded(object):
 def record_once(spec, run, cassette, rseed=0, thread_factory=None, recorder=None, sim=None, sent=False):
     """Live run of the service with recording enabled over `cassette` (wrapped in a spy)."""
     out = Recorded()
-    out.spy = cassette if isinstance(cassette, SpyCassette) else SpyCassette(cassette, run)
+    if recorder is not None and isinstance(recorder.tape_cassette, SpyCassette):
+        out.spy = recorder.tape_cassette
+    else:
+        out.spy = cassette if isinstance(cassette, SpyCassette) else SpyCassette(cassette, run)
     out.recorder = recorder or TapeRecorder(out.spy, random_seed=rseed)
+    out.recorder.tape_cassette = out.spy
     out.recorder.enable_recording()
     out.env = Env(spec, run, out.recorder)
     out.svc = Service(spec, out.env, out.recorder, thread_factory=thread_factory or inline_thread_factory)
@@ -946,3 +967,56 @@ def outputs_as_map(outputs):
             dups.append(o.key)
         m[o.key] = V.canon(o.value)
     return m, dups
+
+
+# ---------------------------------------------------------------------------------------------- fault placement
+STEP_FAULTS_IN = ['key_unbuildable', 'handler_raises', 'discard_in_body', 'interrupt_in_body', 'discard_before',
+                  'raise_before', 'interrupt_before', 'force_before', 'force_in_body', 'copy_fails', 'unserializable_value']
+STEP_FAULTS_OUT = ['handler_raises', 'discard_in_body', 'interrupt_in_body', 'discard_before', 'raise_before',
+                   'interrupt_before', 'force_before', 'force_in_body', 'unserializable_value']
+
+
+def locate(steps, target):
+    for n, st in enumerate(steps):
+        if st is target:
+            return steps, n
+        if st[0] == 'spawn':
+            for b in st[1]:
+                r = locate(b, target)
+                if r is not None:
+                    return r
+    return None
+
+
+def place_fault(spec, st, kind, run):
+    """Arm fault `kind` at interception step `st` (adjusting the spec where the fault needs a handler etc.)."""
+    if kind.endswith('_before'):
+        lst, n = locate(spec.body, st)
+        lst.insert(n, {'discard_before': ['discard'], 'force_before': ['force'], 'raise_before': ['raise', D.ErrB],
+                       'interrupt_before': ['interrupt']}[kind])
+        return kind
+    if kind == 'handler_raises':
+        (spec.inputs if st[0] == 'in' else spec.outputs)[st[1]].handler = True
+    if kind == 'copy_fails':
+        spec.op.params = dict(spec.op.params or {}, copy_data_on_intercepion=True)
+    if kind == 'unserializable_value' and st[0] == 'out':
+        st[3] = ('value', D.Unserializable(3))
+        run.fault('unserializable_value')
+        return kind
+    st[4] = kind
+    return kind
+
+
+class ScriptedRandom(object):
+    """Stands in for TapeRecorder._random / S3TapeCassette._random: returns scripted draws and counts them."""
+
+    def __init__(self, values, default=0.5):
+        self.values = list(values)
+        self.default = default
+        self.draws = 0
+
+    def random(self):
+        self.draws += 1
+        if self.values:
+            return self.values.pop(0)
+        return self.default
